@@ -38,14 +38,20 @@ fn build(prog: &J) -> SaseEngine {
     if prog["part"].as_bool().unwrap() {
         e = e.with_partition_by("key".into());
     }
-    if prog["neg"].as_str().unwrap() != "none" {
-        e = e.with_negation(prog["neg"].as_str().unwrap().into(), None);
+    for c in prog["negs"].as_array().unwrap() {
+        let pred = match c["f"].as_str().unwrap() {
+            "none" => None,
+            "ge1" => Some(Predicate::Compare { field: "x".into(), op: CompareOp::Ge, value: Value::Int(1) }),
+            "eqfirst" => Some(Predicate::CompareRef { field: "x".into(), op: CompareOp::Eq, ref_alias: "s1".into(), ref_field: "x".into() }),
+            f => panic!("unknown negation filter {f}"),
+        };
+        e = e.with_negation(c["type"].as_str().unwrap().into(), pred);
     }
     e
 }
 
 fn relevant(prog: &J, ty: &str) -> bool {
-    prog["steps"].as_array().unwrap().iter().any(|s| s["type"] == ty) || prog["neg"] == ty
+    prog["steps"].as_array().unwrap().iter().any(|s| s["type"] == ty) || prog["negs"].as_array().unwrap().iter().any(|s| s["type"] == ty)
 }
 
 fn mk_event(i: usize, e: &J) -> Event {
@@ -181,8 +187,9 @@ fn render_vpl(prog: &J) -> Option<String> {
     if prog["part"].as_bool().unwrap() {
         s.push_str("    .partition_by(key)\n");
     }
-    if prog["neg"].as_str().unwrap() != "none" {
-        s.push_str(&format!("    .not({})\n", prog["neg"].as_str().unwrap()));
+    for c in prog["negs"].as_array().unwrap() {
+        let w = match c["f"].as_str().unwrap() { "none" => "", "ge1" => " where x >= 1", "eqfirst" => " where x == s1.x", _ => unreachable!() };
+        s.push_str(&format!("    .not({}{})\n", c["type"].as_str().unwrap(), w));
     }
     s.push_str("    .emit(");
     for i in 0..steps.len() {
@@ -358,7 +365,9 @@ pub fn record(args: &[String]) {
         let kleene = shape == 3 || shape == 4 || shape == 5 || shape == 7;
         let tight = rng.chance(1, 3);
         let prog = json!({
-            "steps": steps, "part": rng.chance(1, 2), "neg": if rng.chance(1, 3) { "N" } else { "none" },
+            "steps": steps, "part": rng.chance(1, 2),
+            "negs": match rng.below(6) { 0 => json!([{"type":"N","f":"none"}]), 1 => json!([{"type":"N","f":"ge1"}]),
+                                         2 => json!([{"type":"N","f":"eqfirst"},{"type":"N","f":"ge1"}]), _ => json!([]) },
             "maxRuns": if tight { 1 + rng.below(3) } else { 100 },
             "strat": *rng.pick(&["drop", "oldest", "least"]),
             "maxK": if kleene { 2 + rng.below(4) } else { 20 },
@@ -396,7 +405,7 @@ pub fn kleene_record(args: &[String]) {
         let max_enum = if f == "gtself" { *rng.pick(&[1, 2, 3, full.saturating_sub(1).max(1), full, 100000]) } else { *rng.pick(&[1, 100]) };
         let prog = json!({
             "steps": [{"type":"A","f":"none","all":false},{"type":"B","f":f,"all":true},{"type":"C","f":"none","all":false}],
-            "part": rng.chance(1, 2), "neg": "none", "maxRuns": 100, "strat": "drop", "maxK": max_k, "maxEnum": max_enum,
+            "part": rng.chance(1, 2), "negs": [], "maxRuns": 100, "strat": "drop", "maxK": max_k, "maxEnum": max_enum,
         });
         let mut stream = vec![json!({"type": "A", "key": "k1", "x": rng.below(3)})];
         for _ in 0..n {
